@@ -16,7 +16,9 @@ each table after each job is created; decompress data is keyed by that start ind
 the column written (<einsum><SEP>compressed_index = the shifted index) is the one read at both sites of
 decompress_pmappings, and it is removed only after all merges; (Z4) the decompress merge is left_on that
 column, right_index=True, how=left (inner is also sound), over exactly one source row per id (asserted);
-(Z5) results of the unordered compress are stored by key and re-ordered by the input key order (C20-U1
+(Z6) the reverse walk is sound: detail tables are inserted by ascending start index (ordered job results), ids
+are visited in descending order, the walk advances while id < start index, and decompress only reads the
+detail store (it is shared by every decompress of one compress); (Z5) results of the unordered compress are stored by key and re-ordered by the input key order (C20-U1
 instance). NOT decided: pandas' merge semantics.
 """
 
@@ -114,6 +116,46 @@ def check(ctx):
     rb = [s for s in dp.stmts() for t, v, _ in assigned_targets(s) if isinstance(t, ast.Name) and t.id == "data" and isinstance(v, ast.Call) and call_name(v) == "merge"]
     ctx.check(len(rb) == 1, R, dp, rb[0] if rb else dp.node, "the merged frame is not carried to the next Einsum", "merged frame carried forward")
 
+    R = "C15-Z6"
+    ctx.doc(R, "the reverse walk over detail tables is sound: tables are inserted in ascending start index (ordered job results), ids are visited in descending order, the walk advances while id < start index, and the detail store is only read")
+    inner = [c for c in cl.calls("parallel")]
+    ctx.require(len(inner) == 1, R, "_compress_pmapping_list: parallel call")
+    ra = kwarg(inner[0], "return_as")
+    ctx.check(ra is None or "unordered" not in norm(ra), R, cl, inner[0], "per-table jobs are consumed in completion order: detail tables are no longer inserted by ascending start index, and the reverse walk in decompress_pmappings "
+              "stops at the wrong table (the one-row assertion fails or another table with the same id range is read)", "job results consumed in submission order => ascending start indices")
+    it = single_defs(dp.node, dp.params())
+    walk = [v for s in dp.stmts() for t, v, _ in assigned_targets(s) if isinstance(t, ast.Name) and t.id == "decompressed_iter"]
+    ok = len(walk) == 1 and norm(walk[0]) == "reversed(decompress.items())"
+    ctx.check(ok, R, dp, walk[0] if walk else dp.node, "the detail tables are not walked as reversed(decompress.items()) (non-destructive, last start index first)", "non-destructive reverse walk")
+    ids = [s for s in dp.stmts() if isinstance(s, ast.For) and "COMPRESSED_INDEX" in norm(s.iter)]
+    ok = len(ids) == 1 and norm(ids[0].iter).startswith("reversed(sorted(")
+    ctx.check(ok, R, dp, ids[0].iter if ids else dp.node, "selected ids are not visited in descending order: the one-pass reverse walk cannot go back to a later table", "ids visited in descending order")
+    wh = [s for s in dp.stmts() if isinstance(s, ast.While)]
+    ok = len(wh) == 1 and norm(wh[0].test) in ("chosen is None or i < start_index",) and any(call_name(c) == "next" and norm(c.args[0]) == "decompressed_iter" for c in ast.walk(wh[0]) if isinstance(c, ast.Call))
+    ctx.check(ok, R, dp, wh[0].test if wh else dp.node, f"the walk advances under `{norm(wh[0].test) if wh else None}`, not `chosen is None or i < start_index`: with <= the first row of every table is looked up in the previous table", "advance while id < start index of the current table")
+    aliases = {"decompress_data", "decompress", "chosen", "decompress_data.data"}
+    MUT = {"pop", "popitem", "clear", "update", "setdefault", "drop", "sort_values", "sort_index", "reset_index", "__setitem__", "__delitem__", "insert", "rename"}
+    nmut = 0
+    for c in dp.walk():
+        if isinstance(c, ast.Call) and isinstance(c.func, ast.Attribute) and norm(c.func.value) in aliases and c.func.attr in MUT:
+            inplace = kwarg(c, "inplace")
+            destructive = c.func.attr in ("pop", "popitem", "clear", "update", "setdefault", "__setitem__", "__delitem__", "insert") or (isinstance(inplace, ast.Constant) and inplace.value is True)
+            if destructive:
+                nmut += 1
+                ctx.bad(R, dp, c, f"decompress_pmappings mutates the detail store (`{norm(c)}`): the DecompressData is shared by every decompress of the same compress "
+                        "(and by retries), so a later call finds tables missing and cannot attach the rows' details")
+        if isinstance(c, ast.Delete) and any(norm(getattr(t, "value", t)) in aliases for t in c.targets):
+            nmut += 1
+            ctx.bad(R, dp, c, f"decompress_pmappings deletes from the detail store (`{norm(c)}`)")
+        if isinstance(c, (ast.Assign, ast.AugAssign)):
+            for t in (c.targets if isinstance(c, ast.Assign) else [c.target]):
+                if isinstance(t, ast.Subscript) and norm(t.value) in aliases:
+                    nmut += 1
+                    ctx.bad(R, dp, c, f"decompress_pmappings writes into the detail store (`{norm(c)[:80]}`)")
+    if nmut == 0:
+        ctx.ok(R, dp, dp.node, "no mutating call, delete or subscript store on decompress_data / decompress / chosen")
+    ctx.floor(R, 5)
+
     R = "C15-Z5"
     ctx.doc(R, "unordered compress results are stored by key and rebuilt in input key order")
     ce = ctx.func(CP, "compress_einsum2pmappings", R)
@@ -126,6 +168,9 @@ def check(ctx):
 
 
 VARIANTS = [
+    {"kind": "F", "name": "walk-pops-detail-store", "rule": "C15-Z6", "edits": [(CP, "                start_index, chosen = next(decompressed_iter)", "                start_index, chosen = decompress.popitem()")]},
+    {"kind": "F", "name": "walk-advances-on-equal", "rule": "C15-Z6", "edits": [(CP, "            while chosen is None or i < start_index:", "            while chosen is None or i <= start_index:")]},
+    {"kind": "F", "name": "inner-jobs-unordered", "rule": "C15-Z6", "edits": [(CP, "    for compress, decompress, start_index in parallel(jobs, n_jobs=1):", "    for compress, decompress, start_index in parallel(jobs, n_jobs=1, return_as=\"generator_unordered\"):")]},
     {"kind": "F", "name": "compress-cols-not-complement", "rule": "C15-Z1", "edits": [(CP, "    compress_cols = [c for c in data.columns if c not in keep_cols]", "    compress_cols = [c for c in data.columns if not col_used_in_pareto(c)]")]},
     {"kind": "F", "name": "start-index-plus-one", "rule": "C15-Z2", "edits": [(CP, "        start_index += len(pmapping.mappings.data)", "        start_index += 1")]},
     {"kind": "F", "name": "written-key-differs", "rule": "C15-Z3", "edits": [(CP, '    compressed_data[f"{einsum_name}<SEP>{COMPRESSED_INDEX}"] = data.index', '    compressed_data[f"{einsum_name}<SEP>idx_{COMPRESSED_INDEX}"] = data.index')]},
